@@ -131,7 +131,23 @@ func fatal2(format string, args ...interface{}) int {
 	return 2
 }
 
+// runScale (env VERIF_RUN_SCALE, e.g. 0.25) scales every batch size; used only when seeded
+// defects are evaluated against checks other than their target, never by registered commands.
+var runScale = 1.0
+
+func init() {
+	if v := os.Getenv("VERIF_RUN_SCALE"); v != "" {
+		if f, err := strconv.ParseFloat(v, 64); err == nil && f > 0 {
+			runScale = f
+		}
+	}
+}
+
 func runsFor(p *Prop, tier string, race bool) int {
+	return int(float64(runsFor1(p, tier, race))*runScale + 0.5)
+}
+
+func runsFor1(p *Prop, tier string, race bool) int {
 	if FineBuild {
 		if tier == "thorough" {
 			return p.FineThorough
@@ -807,6 +823,7 @@ func parentMain(o *options) int {
 	if o.tier == "thorough" {
 		fineRuns = p.FineThorough
 	}
+	fineRuns = int(float64(fineRuns) * runScale)
 	if fineRuns > 0 && o.runs == 0 && o.finebin != "" {
 		if _, err := os.Stat(o.finebin); err == nil {
 			fineAgg = &batchAgg{counters: map[string]int64{}, foreign: map[string]int64{}, sigs: map[uint64]bool{}, ngrams: map[uint64]bool{}, schedSigs: map[uint64]bool{}}
